@@ -389,6 +389,18 @@ def rule_fold(text, ctx):
     return text
 
 
+def rule_range_find(text, ctx):
+    """R16: `(A..B).find(|&x| PRED)` -> explicit first-match loop (definition of Iterator::find on a Range)."""
+    m = re.search(r'\((\w+)\.\.(\w+)\)\.find\(\|&(\w+)\| ([^;]*?)\)\n', text)
+    if m:
+        a, b, x, pred = m.groups()
+        new = ('{ let mut verif_i = %s; let mut verif_r = None; while verif_i < %s { let %s = verif_i; '
+               'if %s { verif_r = Some(%s); break; } verif_i += 1; } verif_r }\n' % (a, b, x, pred, x))
+        ctx.note('R16', m.group(0), new)
+        text = text[:m.start()] + new + text[m.end():]
+    return text
+
+
 def rule_format(text, ctx):
     """R11: format!(..) -> verif_opaque_string()"""
     def f(m):
@@ -469,6 +481,13 @@ def apply_fn(text, spec, ctx, assoc_types=None):
         text = rule_format(text, ctx)
     if 'R14' in spec.rules:
         text = rule_fold(text, ctx)
+    if 'R16' in spec.rules:
+        text = rule_range_find(text, ctx)
+    if 'R12x' in spec.rules:
+        def _d(m):
+            ctx.note('R12x', m.group(0), m.group(1) + '::verif_default()')
+            return m.group(1) + '::verif_default()'
+        text = re.sub(r'\b(ListItem|State)::default\(\)', _d, text)
     if 'R6' in spec.rules:
         text = rule_foreach(text, ctx)
     if 'R13' in spec.rules:
